@@ -11,7 +11,7 @@ from common import Inconclusive, WORK, VERIF
 SIGMAP = {
     "C01": ("GLUE:wrong-method", "GLUE:wrong-instance", "GLUE:call-count", "GLUE:state-diverged", "GLUE:final-state", "GLUE:result-differs",
             "C01:", "GLUE:panic"),
-    "C02": ("GLUE:argument-altered", "GLUE:argument-address", "GLUE:returned-address", "GLUE:into-conversions", "GLUE:result-differs", "GLUE:state-diverged"),
+    "C02": ("GLUE:argument-altered", "GLUE:argument-address", "GLUE:returned-address", "GLUE:into-conversions", "GLUE:result-differs", "GLUE:state-diverged", "GLUE:callee-model"),
     "C06": ("GLUE:leaked", "GLUE:double-drop", "GLUE:dropped-while", "GLUE:borrowed-", "GLUE:alloc", "GLUE:payload-corrupt", "C06:", "GLUE:panic"),
     "C07": ("GLUE:context-count", "C07:"),
     "C08": ("C08:", "GLUE:panic"),
